@@ -107,7 +107,7 @@ impl SonicKZG10 {
                 forall|d: Option<usize>| (#[trigger] combined_comms@.dom().contains(d)) == (old(combined_comms)@.dom().contains(d) || sonic_has_bound(commitments@, d, it.index@ as nat)),
                 forall|d: Option<usize>| combined_comms@.dom().contains(d) ==> (#[trigger] combined_comms@[d])@ ==
                     f_add(if old(combined_comms)@.dom().contains(d) { old(combined_comms)@[d]@ } else { f_zero() }, sonic_bucket(commitments@, old(sponge).st@, rz, d, it.index@ as nat)),
-//@at /for \(labeled_comm, value\) in commitments\.into_iter\(\)\.zip\(values\) \{/
+//@loopstart 1
             proof { reveal_with_fuel(sp_iter, 3); broadcast use ax_add_assoc, ax_add_zero, ax_add_comm; }
 //@before /\*combined_comms\.entry\(/
             proof {
@@ -146,7 +146,7 @@ impl SonicKZG10 {
                 g1_projective_elems@.len() == it.index@, g2_prepared_elems@.len() == it.index@,
                 forall|i: int| 0 <= i < it.index@ ==> !sonic_unsupported(vk, (#[trigger] ents[i]).0),
                 dot(g1pviews(g1_projective_elems@), g2prep_views(g2_prepared_elems@), it.index@ as nat) == sonic_pairing_sum(ents, vk, it.index@ as nat),
-//@at /for \(degree_bound, comm\) in combined_comms\.into_iter\(\) \{/
+//@loopstart 1
             let ghost a0 = g1_projective_elems@; let ghost b0 = g2_prepared_elems@;
             proof {
                 assert(0 <= it.index@ < ents.len() && ents[it.index@ as int].0 == degree_bound);
